@@ -17,6 +17,28 @@ CLAIMED = {
         "HashClient._get_client's call of the helper is covered under C12.",
    technique="contract-based deductive verification: AST->VC generation over the real source, per-path string/regex VCs, z3+cvc5",
    ref="5 C20"),
+ "C17": dict(
+   text="RetryingClient._retry is executed symbolically from the real source against an outcome oracle (prophecy functions over the call "
+        "index: any sequence of returns, Exception-class and non-Exception raises). Loop 0 carries an inductive invariant (calls == "
+        "sleeps == attempt index, every earlier attempt raised retryably); every exit is a VC against the trace specification taken "
+        "from the statement (first success returned unchanged, final exception re-raised as the same object, at most `attempts` calls, "
+        "sleep(retry_delay) between attempts and never after the last, retry filter = retry_for/do_not_retry_for, identical arguments "
+        "on every call, no fall-through). __getattr__ forwarding and constructor validation are further obligations. Unbounded in "
+        "attempts and outcome sequences.",
+   note="Trusted: pyvc VC generator; z3 (quantified invariant); isinstance-on-tuple axiom; time.sleep modelled as a log entry. "
+        "Constructor validation is checked on a finite set of type cases (tuple/list/set spellings, non-exception members, overlap).",
+   technique="contract-based deductive verification: loop invariant + per-exit VCs over a ghost outcome oracle, z3",
+   ref="5 C17"),
+ "C18": dict(
+   text="Every FallbackClient read (get, gets, get_many, gets_many) is executed symbolically over a symbolic-length sequence of caches "
+        "obeying the Client miss contract, with a loop invariant over a ghost call log (call j went to caches[j] with the caller's key; "
+        "all earlier caches missed); returning inside the loop requires a hit at that index and the hit's own answer, returning after "
+        "it requires that all caches missed. Every write is one call on caches[0] whose arguments, bound against Client's current "
+        "signature, equal the caller's. Holds for any number of caches and any hit/miss assignment.",
+   note="Trusted: pyvc VC generator; z3; caches obey the Client contract for a miss (get -> None, gets -> (None, None), *_many -> {}); "
+        "the value returned when every cache misses is not constrained (the statement fixes only the first hit).",
+   technique="contract-based deductive verification: loop invariants over a ghost call log, call-binding VCs, z3",
+   ref="5 C18"),
 }
 REASON_PENDING = "contracts designed (DESIGN.md section 5) but not yet mechanised; not claimed"
 
